@@ -255,7 +255,7 @@ pub fn print_enum(prog: &Program, n: usize, out: &mut String) {
         out.push_str(&format!("#[darling({})]\n", copts.join(", ")));
     }
     out.push_str(&format!("pub enum R{n} {{\n"));
-    for v in &e.variants {
+    for (vi, v) in e.variants.iter().enumerate() {
         let mut vopts: Vec<String> = vec![];
         if let Some(r) = &v.rename {
             vopts.push(format!("rename = \"{r}\""));
@@ -275,7 +275,7 @@ pub fn print_enum(prog: &Program, n: usize, out: &mut String) {
             VBody::Struct(fields) => {
                 out.push_str(&format!("    {attr}{} {{ ", v.rust));
                 for (i, f) in fields.iter().enumerate() {
-                    out.push_str(&format!("{}{}: {}, ", field_attr(prog, n, 100 + i, f), f.rust, field_ty(prog, f)));
+                    out.push_str(&format!("{}{}: {}, ", field_attr(prog, n, 100 * (vi + 1) + i, f), f.rust, field_ty(prog, f)));
                 }
                 out.push_str("},\n");
             }
@@ -305,11 +305,11 @@ pub fn print_enum(prog: &Program, n: usize, out: &mut String) {
     }
     out.push_str("} } }\n");
     // field default fns of struct variants
-    for v in &e.variants {
+    for (vi, v) in e.variants.iter().enumerate() {
         if let VBody::Struct(fields) = &v.body {
             for (i, f) in fields.iter().enumerate() {
                 if f.dflt == Dflt::Fn {
-                    out.push_str(&field_default_fn(prog, n, 100 + i, f));
+                    out.push_str(&field_default_fn(prog, n, 100 * (vi + 1) + i, f));
                 }
             }
         }
